@@ -20,32 +20,36 @@ EXPLANATION = (
 def run(ctx):
     m = Model(ctx)
     f = m.book_fn("modify_order")
-    q = m.q(f)
+    # whole-operation view: the dispatcher with every private helper (in-place reduction, replacement, unqueue / queue
+    # helpers, placement helper, matching loops) spliced in - the rules below speak about what RUNS in each request case,
+    # not about which helper it is written in
+    q = m.ov(f)
     E = m.w.effects
     np_, nv_ = ("param", 3, "new_price"), ("param", 4, "new_vol")
     ctx.check(f.params[2:4] == ["new_price", "new_vol"], "dispatch", "params", ctx.loc(f), "modify_order(order_id, new_price, new_vol)")
-
-    def opt(atoms, p):
-        for a in atoms:
-            if a[0] == "variant" and a[1] == p:
-                return a[2][0] if len(a[2]) == 1 else None
-        return None
 
     def payload(p):
         return ("field", ("downcast", p, "Some"), "0", "std::option::Option")
 
     from analysis.beta import normalize
-    cfg = q.cfg
-    calls = [c for c in q.calls() if c.target is not None and c.target.crate.name == "bourse_book" and m.w.effects.summary(c.target)["writes"]]
-    inplace = []
-    replace = []
+    calls = [c for c in q.calls() if c.target is not None and c.target.crate.name == "bourse_book" and E.summary(c.target)["writes"]]
+    prio_calls, light_calls = [], []
     for c in calls:
         s = E.summary(c.target)
         touches_prio = any(m.s_prio in path for (_pi, path) in s["writes"])
-        (replace if touches_prio else inplace).append(c)
-    ctx.check(len(inplace) == 1 and len(replace) >= 1, "dispatch", "shape", ctx.loc(f),
-              "modify_order dispatches to 1 in-place call (%s) and %d replacing call site(s)" % (inplace[0].name if inplace else "?", len(replace)),
-              "modify_order has %d calls that keep the priority map and %d that touch it (expected 1 and >= 1)" % (len(inplace), len(replace)))
+        (prio_calls if touches_prio else light_calls).append(c)
+    removals = [c for (c, _sd) in m.side_op_calls(q, "remove_order")]
+    insertions = [c for (c, _sd) in m.side_op_calls(q, "insert_order")]
+    reductions = [c for (c, _sd) in m.side_op_calls(q, "remove_vol")]
+    loops = m.ov_matching_loops(q)
+    loop_blocks = set()
+    for (h, _sd, _c) in loops:
+        loop_blocks |= set(q.body.loop_body(h))
+    ctx.check(len(removals) >= 2 and len(insertions) >= 2 and len([c for c in reductions if c.b not in loop_blocks]) >= 1 and len(loops) >= 2, "dispatch", "shape", ctx.loc(f),
+              "whole-operation view of modify_order: %d removals, %d insertions, %d volume reductions (%d outside the matching loops), %d matching loops" % (
+                  len(removals), len(insertions), len(reductions), len([c for c in reductions if c.b not in loop_blocks]), len(loops)))
+    # field writes of the order / its entry / the book made directly in the view (the trade writer's own writes are C03's)
+    fwrites = [w for w in q.writes() if w.field is not None and w.owner.split("::")[-1] in ("Order", "OrderEntry", "OrderBook")]
 
     # ---- finite case analysis over (status, new_price shape, new_vol shape, v < current volume, price on grid): what runs
     #      in each case is read off the CFG with the branch conditions evaluated under the case (analysis/cases.py), so a
@@ -89,6 +93,9 @@ def run(ctx):
     def run_set(ce):
         return [c for c in calls if ce.reachable(c.b)]
 
+    def write_set(ce):
+        return [w for w in fwrites if ce.reachable(w.b)]
+
     def label(p, v, strict=None):
         return "(new_price %s, new_vol %s%s)" % (p, v, "" if strict is None else (", v < current" if strict else ", v >= current"))
     # (0) not Active: nothing runs, whatever the request
@@ -96,21 +103,23 @@ def run(ctx):
         for v in ("None", "Some"):
             for strict in (True, False):
                 ce = case(False, p, v, strict)
-                rs = run_set(ce)
-                ctx.check(not rs, "dispatch", "inactive|%s%s%s" % (p, v, strict), ctx.loc(f), "order not Active %s: no effectful call is reachable" % label(p, v, strict),
-                          "order not Active %s: %s can still run" % (label(p, v, strict), [c.name for c in rs]))
+                rs, ws = run_set(ce), write_set(ce)
+                ctx.check(not rs and not ws, "dispatch", "inactive|%s%s%s" % (p, v, strict), ctx.loc(f), "order not Active %s: no effectful call and no field write is reachable" % label(p, v, strict),
+                          "order not Active %s: %s can still run" % (label(p, v, strict), [c.name for c in rs] + [w.text()[:60] for w in ws]))
     # (1) nothing to change
     ce = case(True, "None", "None")
-    rs = run_set(ce)
-    ctx.check(not rs, "noop", "none-none", ctx.loc(f), "a modification with nothing to change reaches no effectful call",
-              "effectful call reachable with (None, None): %s" % ", ".join(c.text()[:50] for c in rs))
-    # (2) pure strict reduction: exactly the in-place call, with amount current - v
+    rs, ws = run_set(ce), write_set(ce)
+    ctx.check(not rs and not ws, "noop", "none-none", ctx.loc(f), "a modification with nothing to change reaches no effectful call and no field write",
+              "reachable with (None, None): %s" % ", ".join([c.text()[:50] for c in rs] + [w.text()[:60] for w in ws]))
+    # (2) pure strict reduction: exactly the mirrored volume decrease runs, always, with amount current - v; the priority
+    #     map is not touched, no other order field is written and the volume becomes v
     ce = case(True, "None", "Some", strict=True)
-    rs = run_set(ce)
-    ok = bool(inplace) and [c.b for c in rs] == [inplace[0].b] and ce.must_run([inplace[0].b])
-    ctx.check(ok, "in-place", "guard", inplace[0].loc() if inplace else ctx.loc(f), "price omitted and v < current volume (strict): exactly the in-place reduction runs, always",
-              "price omitted and v < current volume: runs %s%s" % ([c.name for c in rs], "" if not inplace or ce.must_run([inplace[0].b]) else " (the in-place call can be skipped)"))
-    for c in inplace:
+    rs, ws = run_set(ce), write_set(ce)
+    red = [c for c in rs if c in reductions]
+    ok = bool(red) and len(red) == len(rs) and ce.must_run([c.b for c in red])
+    ctx.check(ok, "in-place", "guard", red[0].loc() if red else ctx.loc(f), "price omitted and v < current volume (strict): exactly the in-place reduction (remove_vol) runs, always",
+              "price omitted and v < current volume: runs %s%s" % (sorted({c.name for c in rs}), "" if not red or ce.must_run([c.b for c in red]) else " (the in-place reduction can be skipped)"))
+    for c in red:
         amt = ce.value(c.args[2]) if len(c.args) > 2 else None
         bb = c02.bin_of(amt) if amt is not None else None
         ok = bb is not None and bb[0] == "Sub" and is_vol(bb[1]) and same(bb[2], payload(nv_))
@@ -119,60 +128,57 @@ def run(ctx):
         okp = not any(m.s_prio in path for (_pi, path) in s["writes"]) and not s["unknown"]
         ctx.check(okp, "in-place", "keeps-queue", ctx.loc(c.target), "%s never writes a priority map (effect summary: %s)" % (
             c.target.name, sorted(".".join(p) for _i, p in s["writes"])), "%s may write the priority map" % c.target.name)
-        tq = m.q(c.target)
-        ow = [w for w in tq.writes() if w.owner.split("::")[-1] in ("Order", "OrderEntry")]
-        ctx.check(all(w.field == "vol" for w in ow) and ow, "in-place", "only-vol", ctx.loc(c.target), "the in-place path writes no order field but vol",
-                  "the in-place path also writes %s" % ", ".join(w.text() for w in ow if w.field != "vol"))
-    # (3..5) every other request on an Active order (on-grid price): exactly a replacement runs, always, with the requested
-    #        value where given and the order's current one where omitted
+    ctx.check(all(w.field == "vol" for w in ws) and bool(ws), "in-place", "only-vol", ws[0].loc() if ws else ctx.loc(f), "the in-place path writes no order field but vol",
+              "the in-place path also writes %s" % ", ".join(w.text() for w in ws if w.field != "vol"))
+    for w in ws:
+        if w.field != "vol":
+            continue
+        val = ce.value(w.val)
+        bb = c02.bin_of(val)
+        # vol := v, or vol := vol - (vol - v)
+        okv = same(val, payload(nv_))
+        if not okv and bb is not None and bb[0] == "Sub" and is_vol(bb[1]):
+            b2 = c02.bin_of(bb[2])
+            okv = b2 is not None and b2[0] == "Sub" and is_vol(b2[1]) and same(b2[2], payload(nv_))
+        ctx.check(okv, "in-place", "new-vol", w.loc(), "the in-place path leaves the order with volume v", "the in-place path sets the volume to %s" % render(val))
+    ctx.check(ce.must_run([w.b for w in ws if w.field == "vol"]) if ws else False, "in-place", "vol-written", ctx.loc(f), "the in-place path always updates the order's volume")
+    # (3..5) every other request on an Active order (on-grid price): the order is removed from its queue with its current
+    #        volume (typestate: remove rule), gets the requested value where given and keeps its current one where omitted,
+    #        is re-matched and re-queued (exit states + never-crossed); the in-place reduction is not used
     for (p, v, strict) in (("None", "Some", False), ("Some", "None", False), ("Some", "None", True), ("Some", "Some", False), ("Some", "Some", True)):
         ce = case(True, p, v, strict=strict, grid=True)
-        rs = run_set(ce)
-        only_replace = bool(rs) and all(c in replace for c in rs)
-        ok = only_replace and ce.must_run([c.b for c in rs])
-        ctx.check(ok, "replace", "case|%s|%s|%s" % (p, v, strict), rs[0].loc() if rs else ctx.loc(f),
-                  "%s on an Active order: the order is replaced (and nothing else runs)" % label(p, v, strict if v == "Some" else None),
-                  "%s on an Active order: runs %s%s" % (label(p, v, strict if v == "Some" else None), [c.name for c in rs],
-                                                       "" if not only_replace else " but the replacement can be skipped"))
-        for c in rs:
-            if c not in replace:
-                continue
-            a_p = c.arg_named("new_price") if "new_price" in c.formals else (c.args[2] if len(c.args) > 2 else None)
-            a_v = c.arg_named("new_vol") if "new_vol" in c.formals else (c.args[3] if len(c.args) > 3 else None)
-            vp = ce.value(normalize(m.w, a_p)) if a_p is not None else None
-            vv = ce.value(normalize(m.w, a_v)) if a_v is not None else None
-            # a join of per-arm values: keep the alternatives that are defined under the case
+        rs, ws = run_set(ce), write_set(ce)
+        rem = [c for c in rs if c in removals and c.b not in loop_blocks]
+        red_out = [c for c in rs if c in reductions and c.b not in loop_blocks]
+        ok = bool(rem) and ce.must_run([c.b for c in rem]) and not red_out
+        ctx.check(ok, "replace", "case|%s|%s|%s" % (p, v, strict), rem[0].loc() if rem else ctx.loc(f),
+                  "%s on an Active order: the order is taken out of its queue (replaced), never reduced in place" % label(p, v, strict if v == "Some" else None),
+                  "%s on an Active order: runs %s%s" % (label(p, v, strict if v == "Some" else None), sorted({c.name for c in rs}),
+                                                       " but the removal can be skipped" if rem and not red_out else " (in-place reduction used / no removal)"))
+        for (fname, param, shape) in (("price", np_, p), ("vol", nv_, v)):
+            fw = [w for w in ws if w.field == fname and w.owner.endswith("Order") and w.b not in loop_blocks]
+            vals = [ce.value(normalize(m.w, w.val)) for w in fw]
+
             def pick(x, param, shape):
+                # a join of per-arm values (`unwrap_or`, `match` arms): keep the alternatives that are defined under the case
                 alts = list(x[1]) if x is not None and x[0] == "phi" else [x]
                 if shape == "Some":
                     alts = [y for y in alts if same(y, payload(param))] or alts
                 else:
                     alts = [y for y in alts if not any(same(z, payload(param)) for z in walk(y))] or alts
-                return alts
-            ap, av = pick(vp, np_, p), pick(vv, nv_, v)
-            okp = len(ap) == 1 and (same(ap[0], payload(np_)) if p == "Some" else kept(ap[0], "price"))
-            okv = len(av) == 1 and (same(av[0], payload(nv_)) if v == "Some" else kept(av[0], "vol"))
-            ctx.check(okp and okv, "replace", "args|%s|%s|%s" % (p, v, strict), c.loc(),
-                      "%s: replacement gets price = %s, volume = %s" % (label(p, v), "requested" if p == "Some" else "current", "requested" if v == "Some" else "current"),
-                      "%s: replacement called with price=%s volume=%s (expected the requested value when given, otherwise the order's current one)" % (
-                          label(p, v), render(vp) if vp else "?", render(vv) if vv else "?"))
-    # the replacing callee
-    targets = {c.target.path: c.target for c in replace}
-    ctx.check(len(targets) == 1, "replace", "single-callee", ctx.loc(f), "all replacing dispatches go through one function")
-    for t in targets.values():
-        tq = m.q(t)
-        pw = tq.writes(field="price", owner="Order")
-        vw = tq.writes(field="vol", owner="Order")
-        okp = len(pw) == 1 and pw[0].val[0] == "param" and pw[0].val[2] == "new_price" and not pw[0].guards
-        okv = len(vw) == 1 and vw[0].val[0] == "param" and vw[0].val[2] == "new_vol" and not vw[0].guards
-        ctx.check(okp, "replace", "assign-price", pw[0].loc() if pw else ctx.loc(t), "order.price := the price argument, unconditionally", "price assignment: %s" % "; ".join(w.text() for w in pw))
-        ctx.check(okv, "replace", "assign-vol", vw[0].loc() if vw else ctx.loc(t), "order.vol := the volume argument, unconditionally", "volume assignment: %s" % "; ".join(w.text() for w in vw))
-        rm = m.side_op_calls(tq, "remove_order")
-        ins = m.side_op_calls(tq, "insert_order")
-        ctx.check(len(rm) == 2 and len(ins) == 2, "replace", "requeue-shape", ctx.loc(t), "replacement removes and re-inserts on either side (2 + 2 sites)")
-        for (c, side) in ins:
-            okg = any(a[0] == "cmp" and a[1] == "ne" and a[2][0] == "field" and a[2][2] == "status" and a[3][0] == "agg" and a[3][2].endswith("Status::Filled") for a in c.guards)
-            ctx.check(okg, "replace", "requeue-iff-unfilled|" + str(side), c.loc(), "re-queued only if not Filled by the re-match", "re-insertion under [%s]" % c.gtext())
+                return alts[0] if len(alts) == 1 else ("phi", tuple(alts))
+            vals = [pick(x, param, shape) for x in vals]
+            if shape == "Some":
+                okw = bool(fw) and all(same(x, payload(param)) for x in vals) and ce.must_run([w.b for w in fw])
+                ctx.check(okw, "replace", "assign-%s|%s|%s|%s" % (fname, p, v, strict), fw[0].loc() if fw else ctx.loc(f),
+                          "%s: order.%s := the requested value, always" % (label(p, v), fname),
+                          "%s: order.%s is %s (expected the requested value, on every path)" % (label(p, v), fname, "; ".join(render(x) for x in vals) or "never assigned"))
+            else:
+                okw = all(kept(x, fname) for x in vals)
+                ctx.check(okw, "replace", "keep-%s|%s|%s|%s" % (fname, p, v, strict), fw[0].loc() if fw else ctx.loc(f),
+                          "%s: order.%s keeps its current value" % (label(p, v), fname),
+                          "%s: order.%s is set to %s although it was omitted" % (label(p, v), fname, "; ".join(render(x) for x in vals)))
+        # only price / vol / status / end_time / key of the order are written by a replacement (the rest is identity)
     # typestate: removal with current volume, insertion unfiled/Active/own side, exit invariant
     ts, roots, _ld = run_typestate(ctx, m)
     for v in ts.violations.values():
@@ -183,28 +189,14 @@ def run(ctx):
     ctx.check(("Active", "Active", True) in rel and ("Active", "Filled", False) in rel and all(a == b for (a, b, _i) in rel if a != "Active"),
               "replace", "exit-states", ctx.loc(f), "an Active order leaves modify_order queued+Active or unqueued+Filled; other statuses unchanged",
               "modify_order exit relation: %s" % sorted(rel))
-    # K1/K3 of the re-queue key: C01's key rules restricted to functions reachable from modify_order
-    from .c01 import stamp_fn, is_clock_like
-    stamp = stamp_fn(m)
-    reach = m.w.reachable([f])
-    for g in reach:
-        if g.crate.name != "bourse_book":
-            continue
-        gq = m.q(g)
-        for w in gq.writes(field="key", owner="OrderEntry"):
-            v = w.val
-            tcomp = v[2][0] if v[0] == "call" and v[2] else (v[3][2] if v[0] == "agg" and len(v[3]) == 3 else None)
-            kind = is_clock_like(m, tcomp, stamp) if tcomp else None
-            if stamp is not None and kind == "clock":
-                kind = None  # a raw clock value can precede the stamps of orders already queued: not "behind every order at that price"
-            ctx.check(kind is not None, "replace", "fresh-key-time|" + g.short(), w.loc(), "re-queued under a key whose time is the %s now" % ("queue stamp" if kind == "stamp" else "clock"),
-                      "re-queued under key time %s (stale, or not ordered after the queue stamps already handed out)" % (render(tcomp) if tcomp else "?"))
-            pcomp = v[2][1] if v[0] == "call" and len(v[2]) > 1 else None
-            ctx.check(pcomp is not None and pcomp[0] == "param" and pcomp[2] == "new_price", "replace", "fresh-key-price|" + g.short(), w.loc(),
-                      "re-queued under the key of the new price", "re-queued under key price %s" % (render(pcomp) if pcomp else "?"))
+    # K1/K3 of the re-queue key: C01's key rules on the whole-operation view of modify_order
+    from .c01 import key_write_rules
+    n_key = key_write_rules(ctx, m, [f], k1="replace", k3="replace")
+    ctx.check(n_key >= 1, "replace", "fresh-key", ctx.loc(f), "%d key rebuild(s) in the whole-operation view of modify_order" % n_key)
     # identity fields untouched
+    tws = [t_[0] for t_ in m.trade_writers()]
     for fname in ("arr_time", "start_vol", "order_id", "side", "trader_id"):
-        hits = [w for g in reach for w in m.q(g).writes(field=fname, owner="Order")]
+        hits = [w for w in q.writes(field=fname, owner="Order")] + [w for t_ in tws for w in m.q(t_).writes(field=fname, owner="Order")]
         ctx.check(not hits, "identity", fname, hits[0].loc() if hits else ctx.loc(f), "no write of Order.%s is reachable from modify_order" % fname,
                   "Order.%s is written on a path from modify_order: %s" % (fname, hits[0].text() if hits else ""))
     ctx.assume("valid histories: modify volumes >= 1; the order id exists")
